@@ -267,10 +267,15 @@ def eval_clause(src, spec_globals, env, old_env):
     """native truth of a clause; an exception inside the clause makes it False"""
     code, olds = _prepare(src)
     try:
-        loc = dict(env)
+        # arguments are merged into the globals of the evaluation: the body of a generator expression / lambda inside
+        # a clause is a nested scope and would not see names passed as eval() locals
         for i, o in enumerate(olds):
-            loc[f"__old_{i}"] = eval(o, dict(spec_globals), dict(old_env))
-        return bool(eval(code, dict(spec_globals), loc))
+            g_old = dict(spec_globals)
+            g_old.update(old_env)
+            env = dict(env, **{f"__old_{i}": eval(o, g_old)})
+        g = dict(spec_globals)
+        g.update(env)
+        return bool(eval(code, g))
     except Exception as e:       # noqa
         return False
 
